@@ -1,4 +1,4 @@
-import FrappyProofs.Lemmas.LifecycleWait
+import FrappyProofs.Lemmas.LifecycleGroups
 import FrappyProofs.Lemmas.MultiEvent
 import FrappyModel.Generated.C15
 /-
@@ -10,12 +10,17 @@ Proved for every configuration, fuel, schedule and choice function of `set.pop()
 topological numbering); `shutdown_phase_order`, `shutdown_order_whole_run` (resolved attachments assumed acyclic);
 `init_order_once_partial` (one early, one init, in order, for every initialised module of a node that came up; every
 module of the creation loop initialised; the start phase logs exactly the start loop); `ready_only_after_first_round`.
+Start-up faults (any exception in `write_<p>`, `initialReads`, the first polls): `write_faults_lose_no_write`,
+`startup_sequence_complete`, `writes_precede_polls_in_prologue`, `no_write_after_first_poll` (full: whole run, any
+faults, no hypothesis), `writes_before_first_poll_partial` (exactly once and before the first poll; no communication
+failure in the initial reads of the thread); `comm_failure_skips_writes` proves the recorded finding.
 Kept as `…_statement` (not proved; evidence = correspondence run + monitors): `init_order_once_statement`,
-`bad_attachment_reported_statement` (its second half is `no_half_start`), `writes_before_first_poll_statement`,
-`shutdown_order_statement` (declared instead of resolved attachments).
+`bad_attachment_reported_statement` (its second half is `no_half_start`), `writes_before_first_poll_statement`
+(false on the code that exists: the finding), `shutdown_order_statement` (declared instead of resolved attachments).
 -/
 namespace Frappy.Proofs.C15
 open Frappy.Lifecycle Frappy.Spec.C15 Frappy.Proofs.Lifecycle Frappy.Proofs.LifecycleInit Frappy.Proofs.LifecycleWait
+  Frappy.Proofs.LifecycleWrites Frappy.Proofs.LifecycleGroups
 
 /-- a finite graph on `mods` is acyclic: it has a topological numbering (with numbers up to the number of modules —
 the length of the longest path) -/
@@ -133,7 +138,7 @@ example : (waitRun (waitInit { modules := ["a"], groups := [("a", "a")], mcfg :=
   decide +kernel
 
 example : (wakeStep (waitRun (waitInit { modules := ["a"], groups := [("a", "a")], mcfg := [modA] })
-    [.main, .main, .step "a", .step "a"])).ready = true := by
+    [.main, .main, .step "a", .step "a", .step "a"])).ready = true := by
   decide +kernel
 
 /-- proved part of `init_order_once`: in every life of a node that came up (no errors; every schedule and choice
@@ -218,6 +223,131 @@ def writes_before_first_poll_statement : Prop :=
     let r := run cfg fuel sched pick
     r.st.oof = false → r.st.errors = [] →
     WritesBeforeFirstPoll ((allMods cfg r.st.ioDict).filter (fun c => r.st.modules.contains c.name)) r.log
+
+/-- "configured start values are written before the first poll", order part, **full**: in the whole life of the node —
+every configuration (any attachment graph, shared communicators, Pinatas), every fuel, **every schedule** of start loop /
+poll threads / clock, every choice function, and **any faults** in writes, initial reads and first polls (communication
+failures included) — no configured value of a module is written after the first poll of that module.  (Behind it:
+`startup_groupsOk`, the invariant of `get_module` that no module is registered twice for polling, so every module is
+served by one poll thread; `OI`, the invariant of the start phase under every schedule.) -/
+theorem no_write_after_first_poll (cfg : Cfg) (fuel : Nat) (sched : List Act) (pick : List Name → Nat)
+    (m : Name) (p : String) :
+    NeverAfter (· == Ev.firstpoll m) (· == Ev.write m p) (run cfg fuel sched pick).log :=
+  run_write_order cfg fuel sched pick (uniqueOwner_of_groupsOk _ (startup_groupsOk cfg fuel)) m p
+
+/-- proved part of `writes_before_first_poll_statement` (whole life of a node that came up; every schedule and choice
+function; any faults in the writes and any exception but a communication failure in the initial reads of the thread):
+a configured value `p` of a module `m` served by poll thread `t` is handed to `write_<p>` exactly once in the whole
+log, and never after the first poll of `m`.  Missing for the full statement: (1) the link between the Spec's `allMods`
+and the module objects of the node (`cfgOf`, `members`); (2) threads whose start-up sequence is broken off by a
+communication failure do **not** satisfy "exactly once" for the members behind the failure — `comm_failure_skips_writes`
+(recorded finding), so the full statement is false of the code that exists. -/
+theorem writes_before_first_poll_partial (cfg : Cfg) (fuel : Nat) (sched : List Act) (pick : List Name → Nat)
+    (herr : (run cfg fuel sched pick).st.errors = [])
+    (t m : Name) (p : String) (ht : t ∈ threadsOf (run cfg fuel sched pick).st)
+    (hm : m ∈ members (run cfg fuel sched pick).st t)
+    (hq : ∀ x ∈ members (run cfg fuel sched pick).st t, readsQuiet (objOf (run cfg fuel sched pick).st x))
+    (hp : (cfgOf (run cfg fuel sched pick).st m).writes.count p = 1) :
+    (run cfg fuel sched pick).log.count (Ev.write m p) = 1 ∧
+    NeverAfter (· == Ev.firstpoll m) (· == Ev.write m p) (run cfg fuel sched pick).log := by
+  refine ⟨?_, no_write_after_first_poll cfg fuel sched pick m p⟩
+  rw [(run_log cfg fuel sched pick).1] at herr ht hm hq hp
+  have hG := startup_groupsOk cfg fuel
+  rw [run_write_count cfg fuel sched pick herr (uniqueOwner_of_groupsOk _ hG) t m p ht hm
+    (members_nodup_of_groupsOk _ hG t) hq, hp]
+
+/-- the hypotheses are met by a node with a Pinata, a shared communicator, a failing write and a failing (not
+communication) initial read, under a schedule that preempts the start loop -/
+def wpU : ModCfg := { (default : ModCfg) with name := "u", cls := .hasio, poll := true, writes := ["w0", "w1"], atts := [⟨"io", some "c", false, 0⟩], writeFail := [("w0", "HardwareError")], readsFail := some "KeyError" }
+def wpV : ModCfg := { (default : ModCfg) with name := "v", cls := .hasio, poll := true, writes := ["w1"], atts := [⟨"io", some "c", false, 0⟩], pollFail := some "CommunicationFailedError" }
+def wpC : ModCfg := { (default : ModCfg) with name := "c", cls := .comm, poll := true, exported := true }
+def wpCfg : Cfg := { mods := [wpU, wpV, wpC], dyn := [] }
+
+example : (run wpCfg 20 [.main, .main, .step "c"] (fun _ => 0)).st.errors = [] ∧
+    "c" ∈ threadsOf (run wpCfg 20 [.main, .main, .step "c"] (fun _ => 0)).st ∧
+    "v" ∈ members (run wpCfg 20 [.main, .main, .step "c"] (fun _ => 0)).st "c" ∧
+    (∀ x ∈ members (run wpCfg 20 [.main, .main, .step "c"] (fun _ => 0)).st "c",
+      readsQuiet (objOf (run wpCfg 20 [.main, .main, .step "c"] (fun _ => 0)).st x)) ∧
+    (cfgOf (run wpCfg 20 [.main, .main, .step "c"] (fun _ => 0)).st "u").writes.count "w1" = 1 := by
+  decide +kernel
+
+/-- the order theorem speaks about something: in that run a value is written and its module is polled -/
+example : Ev.write "u" "w1" ∈ (run wpCfg 20 [.main, .main, .step "c"] (fun _ => 0)).log ∧
+    Ev.firstpoll "u" ∈ (run wpCfg 20 [.main, .main, .step "c"] (fun _ => 0)).log := by
+  decide +kernel
+
+/-- start-up faults, the loop of `writeInitParams`: for every module object and **every** assignment of exceptions to its
+`write_` methods (`writeFail`: any class, at any position, any number of them) every configured value is handed to its
+`write_` method exactly once, in the order of `writeDict`, and no exception leaves `writeInitParams` — a refused start
+value never drops the values queued behind it (the class of seeded change C15-m5). -/
+theorem write_faults_lose_no_write (c : ModCfg) :
+    (writeInitParams c).1 = c.writes.map (Ev.write c.name) ∧ (writeInitParams c).2 = none := by
+  rw [writeInitParams_eq]; exact ⟨rfl, rfl⟩
+
+/-- hypotheses met with faults of both `except` arms, first and middle position -/
+def wfM : ModCfg :=
+  { (default : ModCfg) with name := "m", writes := ["w0", "w1", "w2"], writeFail := [("w0", "RuntimeError"), ("w1", "HardwareError")] }
+
+example : (writeInitParams wfM).1 =
+    [Ev.write "m" "w0", Ev.write "m" "w1", Ev.write "m" "w2"] := by decide
+
+/-- ... whereas with the error handling around the whole loop (an exception leaving the loop body) the rest is lost:
+`blocks` stops at the first block an exception leaves -/
+example : blocks [([Ev.write "m" "w0"], some "RuntimeError"), ([Ev.write "m" "w1"], none)] =
+    ([Ev.write "m" "w0"], some "RuntimeError") := by decide
+
+/-- the start-up sequence of a poll thread when no communication failure occurs — for every state of the node, every
+thread, every assignment of write faults (any class, communication failures included: `writeInitParams` swallows them)
+and every other exception in `initialReads` / the first polls: the configured values of a member and then its initial
+reads, member by member, for **every** member; then the first polls of the polled members; then — last — the report
+that the first round is done. -/
+theorem startup_sequence_complete (st : St) (t : Name)
+    (hr : ∀ m ∈ members st t, readsQuiet (objOf st m))
+    (hp : ∀ m ∈ (members st t).filter (fun m => (cfgOf st m).poll), pollQuiet (objOf st m)) :
+    prologue st t =
+      (members st t).flatMap (fun m => (cfgOf st m).writes.map (Ev.write m) ++ [Ev.initread m]) ++
+      ((members st t).filter (fun m => (cfgOf st m).poll)).map Ev.firstpoll ++ [Ev.rounddone t] := by
+  unfold prologue
+  simp only [initLoop_ok st _ hr, pollLoop_ok st _ hp]
+
+def wfA : ModCfg := { (default : ModCfg) with name := "a", poll := true, writes := ["w0", "w1"], writeFail := [("w0", "CommunicationFailedError")], readsFail := some "KeyError" }
+def wfB : ModCfg := { (default : ModCfg) with name := "b", writes := ["w1"], pollFail := some "HardwareError" }
+def wfSt : St := { modules := ["a"], groups := [("a", "a"), ("a", "b")], mcfg := [wfA, wfB] }
+
+example : (∀ m ∈ members wfSt "a", readsQuiet (objOf wfSt m)) ∧
+    (∀ m ∈ (members wfSt "a").filter (fun m => (cfgOf wfSt m).poll), pollQuiet (objOf wfSt m)) := by
+  decide
+
+example : prologue wfSt "a" =
+    [Ev.write "a" "w0", Ev.write "a" "w1", Ev.initread "a", Ev.write "b" "w1", Ev.initread "b", Ev.firstpoll "a",
+     Ev.rounddone "a"] := by decide
+
+/-- with any faults whatsoever (communication failures included): in the events of a poll thread no configured value is
+written after a first poll — the thread's log is a part without polls followed by a part without writes. -/
+theorem writes_precede_polls_in_prologue (st : St) (t : Name) :
+    ∃ A B, prologue st t = A ++ B ∧ (∀ e ∈ A, ∀ m, e ≠ Ev.firstpoll m) ∧ (∀ e ∈ B, ∀ m p, e ≠ Ev.write m p) :=
+  prologue_split st t
+
+example : prologue wfSt "a" = [Ev.write "a" "w0", Ev.write "a" "w1", Ev.initread "a", Ev.write "b" "w1", Ev.initread "b"] ++
+    [Ev.firstpoll "a", Ev.rounddone "a"] := by decide
+
+/-- **recorded finding** (`known_findings/C15.json`, `C15:writes_skipped_after_comm_failure`), proved on the model of
+the code that exists: `io` serves `a` and `b`; `initialReads` of `a` raises a CommunicationFailedError.  The node comes
+up, `b` is polled, and the configured value of `b` is never written: the clause "configured start values are written
+before the first poll" fails, and the judge names exactly the clause kept for this class. -/
+def cfIo : ModCfg := { (default : ModCfg) with name := "io", cls := .comm, exported := true }
+def cfA : ModCfg := { (default : ModCfg) with name := "a", cls := .hasio, exported := true, poll := true, writes := ["w0"], atts := [⟨"io", some "io", false, 0⟩], readsFail := some "CommunicationFailedError" }
+def cfB : ModCfg := { (default : ModCfg) with name := "b", cls := .hasio, exported := true, poll := true, writes := ["w0"], atts := [⟨"io", some "io", false, 0⟩] }
+def cfCfg : Cfg := { mods := [cfIo, cfA, cfB], dyn := [] }
+
+theorem comm_failure_skips_writes :
+    (run cfCfg 20 [] (fun _ => 0)).st.errors = [] ∧
+    Ev.firstpoll "b" ∈ (run cfCfg 20 [] (fun _ => 0)).log ∧
+    Ev.write "b" "w0" ∉ (run cfCfg 20 [] (fun _ => 0)).log ∧
+    ¬ WritesBeforeFirstPoll [cfB] (run cfCfg 20 [] (fun _ => 0)).log ∧
+    judge cfCfg ⟨(run cfCfg 20 [] (fun _ => 0)).st.modules, [], (run cfCfg 20 [] (fun _ => 0)).log, []⟩ =
+      ["writes_skipped_after_comm_failure"] := by
+  decide +kernel
 
 /-- the configuration of the former finding: `d` fails in earlyInit, `u` uses its attachment to `d` in initModule -/
 def findingCfg : Cfg :=
